@@ -167,8 +167,8 @@ def extract_default(
             and not sum(par.values())
         ):
             break
-        elif ch == "\n" and sub_l[idx + 1 : idx + 2] == "\n" and not sum(par.values()):
-            break  # a default never spans a paragraph break; what follows is other prose
+        elif ch == "\n" and sub_l[idx + 1 : idx + 2] == "\n":
+            break  # a default never spans a paragraph break (bracketed or not); what follows is other prose
         elif ch in par:
             par[ch] += 1
         default += ch
